@@ -11,6 +11,7 @@ pub mod validator_parser;
 use crate::models::{ChannelInfo, CommandInfo, EventInfo, StructInfo};
 use std::collections::{HashMap, HashSet};
 use std::path::{Path, PathBuf};
+use syn::ext::IdentExt;
 
 use ast_cache::AstCache;
 use channel_parser::ChannelParser;
@@ -502,7 +503,7 @@ impl CommandAnalyzer {
     ) -> Option<&'a syn::ItemFn> {
         for item in &ast.items {
             if let syn::Item::Fn(func) = item {
-                if func.sig.ident == function_name {
+                if func.sig.ident.unraw() == function_name {
                     return Some(func);
                 }
             }
